@@ -1,4 +1,4 @@
-from contracts import joins as J, engine as E
+from contracts import joins as J, engine as E, handlers as H
 def build(P):
-    P.use_contracts("arn", "engine")
-    P.verify(E.SE + "StateEngine.acknowledge_event_list", J.acknowledge_event_list_contract())
+    H.setup(P)
+    P.verify(E.NOTIFY + "get_start_index", J.get_start_index_contract(), timeout=30)
